@@ -661,19 +661,30 @@ func runProjectCase(c *sx) string {
 // driver mode
 
 var (
-	projDBOnce sync.Once
-	projDB     lungo.IDatabase
-	projDBSeq  int
+	projDBMu     sync.Mutex
+	projDB       lungo.IDatabase
+	projDBEngine *lungo.Engine
+	projDBUses   int
+	projDBSeq    int
 )
 
+// projDatabase: one in-memory engine shared by the driver-mode cases; it is
+// replaced every 500 uses (the oplog of a long-lived engine grows with every
+// insert and makes each call slower).
 func projDatabase() lungo.IDatabase {
-	projDBOnce.Do(func() {
-		client, _, err := lungo.Open(nil, lungo.Options{Store: lungo.NewMemoryStore()})
+	projDBMu.Lock()
+	defer projDBMu.Unlock()
+	if projDB == nil || projDBUses >= 500 {
+		if projDBEngine != nil {
+			projDBEngine.Close()
+		}
+		client, engine, err := lungo.Open(nil, lungo.Options{Store: lungo.NewMemoryStore()})
 		if err != nil {
 			panic(err)
 		}
-		projDB = client.Database("c14")
-	})
+		projDB, projDBEngine, projDBUses = client.Database("c14"), engine, 0
+	}
+	projDBUses++
 	return projDB
 }
 
@@ -965,7 +976,7 @@ func init() {
 		run:      runProjectCase,
 		classify: classifyProject,
 	})
-	registerOracle(&oracle{prop: "C14", name: "projection", run: oracleC14})
+	registerOracle(&oracle{prop: "C14", name: "projection", run: oracleC14, replay: oracleC14Replay})
 }
 
 // =====================================================================
@@ -1102,6 +1113,38 @@ func oracleC14(r *rng, n int, st *oracleStats) []oracleFailure {
 		doc := genProjDoc(r, false, 0)
 		pr := genProjection(r, doc, r.chance(1, 2))
 		oracleC14Direct(doc, pr, st, fail, seen)
+	}
+	return fails
+}
+
+// oracleC14Replay re-checks the case recorded in a failure (detail.case).
+func oracleC14Replay(f oracleFailure) []oracleFailure {
+	m, ok := f.Detail.(map[string]interface{})
+	if !ok {
+		return nil
+	}
+	text, _ := m["case"].(string)
+	c, err := parseSx(text)
+	if err != nil || !c.isL || len(c.list) < 3 {
+		return nil
+	}
+	var fails []oracleFailure
+	st := &oracleStats{Dist: map[string]int{}}
+	fail := func(sig, what string, detail map[string]interface{}) {
+		fails = append(fails, oracleFailure{Property: "C14", Signature: sig, What: what, Family: "project", Detail: detail})
+	}
+	// order-dependent defects need several attempts (Go map order)
+	for try := 0; try < 64 && len(fails) == 0; try++ {
+		switch c.list[0].atom {
+		case "project", "project-wt":
+			oracleC14Direct(*decDoc(c.list[1]), *decDoc(c.list[2]), st, fail, map[string]bool{})
+		case "projectdb":
+			var docs []bson.D
+			for _, n := range c.list[2].list {
+				docs = append(docs, *decDoc(n))
+			}
+			oracleC14DriverCase(c.list[1].atom, docs, *decDoc(c.list[3]), st, fail, map[string]bool{})
+		}
 	}
 	return fails
 }
@@ -1460,6 +1503,10 @@ func oracleC14Driver(r *rng, st *oracleStats, fail func(string, string, map[stri
 	}
 	pr := genProjection(r, docs[r.intn(n)], r.chance(1, 4))
 	op := pick(r, projDBOps)
+	oracleC14DriverCase(op, docs, pr, st, fail, seen)
+}
+
+func oracleC14DriverCase(op string, docs []bson.D, pr bson.D, st *oracleStats, fail func(string, string, map[string]interface{}), seen map[string]bool) {
 	var sb strings.Builder
 	for _, d := range docs {
 		sb.WriteString(enc(d) + " ")
